@@ -495,6 +495,7 @@ class XCodeBackend(backends.Backend):
 
     def generate_test_configurations_map(self) -> None:
         self.test_configurations = {self.buildtype: self.gen_id()}
+        self.regen_configurations = {self.buildtype: self.gen_id()}
 
     def generate_build_configurationlist_map(self) -> None:
         self.buildconflistmap = {}
@@ -1643,6 +1644,18 @@ class XCodeBackend(backends.Backend):
             warn_array.add_item('"$(inherited)"')
             bt_dict.add_item('name', buildtype)
 
+        # Then the regen target.
+        for buildtype in self.buildtypes:
+            bt_dict = PbxDict()
+            objects_dict.add_item(self.regen_configurations[buildtype], bt_dict, buildtype)
+            bt_dict.add_item('isa', 'XCBuildConfiguration')
+            settings_dict = PbxDict()
+            bt_dict.add_item('buildSettings', settings_dict)
+            warn_array = PbxArray()
+            settings_dict.add_item('WARNING_CFLAGS', warn_array)
+            warn_array.add_item('"$(inherited)"')
+            bt_dict.add_item('name', buildtype)
+
         # Now finally targets.
         for target_name, target in self.build_targets.items():
             self.generate_single_build_target(objects_dict, target_name, target)
@@ -1946,12 +1959,12 @@ class XCodeBackend(backends.Backend):
 
         # Regen target
         regen_dict = PbxDict()
-        objects_dict.add_item(self.regen_buildconf_id, test_dict, 'Build configuration list for PBXAggregateTarget "REGENERATE"')
+        objects_dict.add_item(self.regen_buildconf_id, regen_dict, 'Build configuration list for PBXAggregateTarget "REGENERATE"')
         regen_dict.add_item('isa', 'XCConfigurationList')
         conf_arr = PbxArray()
         regen_dict.add_item('buildConfigurations', conf_arr)
         for buildtype in self.buildtypes:
-            conf_arr.add_item(self.test_configurations[buildtype], buildtype)
+            conf_arr.add_item(self.regen_configurations[buildtype], buildtype)
         regen_dict.add_item('defaultConfigurationIsVisible', 0)
         regen_dict.add_item('defaultConfigurationName', self.buildtype)
 
